@@ -458,6 +458,20 @@ theorem replaceFirst_findIdx (fnLoc search : Loc) (r : Arg) : ∀ l : List Arg,
       | none => simp
       | some j => simp
 
+theorem replaceFirst_snd (fnLoc search : Loc) (r : Arg) : ∀ l : List Arg,
+    (replaceFirst fnLoc search r l).2 = (l.findIdx? (fun x => fnLoc ++ [x.name] == search)).isSome
+  | [] => by simp [replaceFirst]
+  | x :: xs => by
+    unfold replaceFirst
+    rw [List.findIdx?_cons]
+    by_cases h : (fnLoc ++ [x.name] == search) = true
+    · simp [h]
+    · simp only [h]
+      rw [replaceFirst_snd fnLoc search r xs]
+      cases xs.findIdx? (fun x => fnLoc ++ [x.name] == search) with
+      | none => simp
+      | some j => simp
+
 /-- CPython's alignment (`PyAst.Args.positionalDefault?`): the default of the `j`-th of `args` is `defaults[k]`
     for `k = j - (len(args) - len(defaults))`, on a well-formed signature -/
 theorem positionalDefault_eq (a : Args) (j k : Nat) (hj : j < a.args.length)
